@@ -34,6 +34,9 @@ type Params struct {
 	// the middle of HandleMessage (its link delivers nothing meanwhile, as with one reader goroutine per
 	// connection) while messages of other links, and local calls, go ahead: handling overlaps deterministically.
 	ClassifyDelayMs int `json:"classifyDelayMs,omitempty"`
+	// LingerMs: a backend that does not return promptly once its context has ended (as the tss-lib ECDSA adapter,
+	// whose pre-parameter generation ignores the context): KeyGen/Sign return this much simulated time after it.
+	LingerMs int `json:"lingerMs,omitempty"`
 }
 
 type Event struct {
@@ -301,6 +304,9 @@ func (b *Backend) run(ctx context.Context) ([]byte, error) {
 			}
 			select {
 			case <-ctx.Done():
+				if b.P.LingerMs > 0 {
+					time.Sleep(SimDelay(b.P.LingerMs, []byte(b.Instance), []byte{byte(b.Node), byte(b.Node >> 8)}))
+				}
 				return nil, fmt.Errorf("scripted protocol: round %d incomplete: %v", r, ctx.Err())
 			case <-b.wake:
 			}
